@@ -143,7 +143,7 @@ def run(pid, tier, seed):
     # semantic layer: the same contracts hold for both families
     sem = driver.Result(pid, tier, seed)
     heap_props.collect(sem)
-    sem.obligations = [o for o in sem.obligations if o.kind != "CANARY"]
+    sem.obligations = [o for o in sem.obligations if o.kind not in ("CANARY", "PROBE")]
     driver.discharge_cached(sem.obligations, tier, seed)
     res.obligations = obls + sem.obligations
     res.struct += sem.struct
